@@ -18,6 +18,7 @@
 package tsdb
 
 import (
+	"errors"
 	"fmt"
 	"io"
 	"strconv"
@@ -31,6 +32,7 @@ import (
 	"go.uber.org/atomic"
 
 	"github.com/lindb/lindb/config"
+	"github.com/lindb/lindb/constants"
 	"github.com/lindb/lindb/flow"
 	"github.com/lindb/lindb/kv"
 	"github.com/lindb/lindb/metrics"
@@ -398,17 +400,18 @@ func (f *dataFamily) MemDBSize() int64 {
 // if it finds data then returns the FilterResultSet, else returns nil
 func (f *dataFamily) Filter(executeCtx *flow.ShardExecuteContext) (resultSet []flow.FilterResultSet, err error) {
 	f.lastReadTime.Store(fasttime.UnixMilliseconds())
+	// a place that holds nothing for the query(not found) must not hide the other places of the family
 	memRS, err := f.memoryFilter(executeCtx)
-	if err != nil {
+	if err != nil && !errors.Is(err, constants.ErrNotFound) {
 		return nil, err
 	}
 	fileRS, err := f.fileFilter(executeCtx)
-	if err != nil {
+	if err != nil && !errors.Is(err, constants.ErrNotFound) {
 		return nil, err
 	}
 	resultSet = append(resultSet, memRS...)
 	resultSet = append(resultSet, fileRS...)
-	return
+	return resultSet, nil
 }
 
 // GetState returns the current state include memory database state.
@@ -461,6 +464,11 @@ func (f *dataFamily) memoryFilter(shardExecuteContext *flow.ShardExecuteContext)
 	memFilter := func(memDB memdb.MemoryDatabase) error {
 		rs, err := memDB.Filter(shardExecuteContext)
 		if err != nil {
+			if errors.Is(err, constants.ErrNotFound) {
+				// this memory database holds nothing for the query(field/series not found):
+				// the other memory database and the files of the family must still be read
+				return nil
+			}
 			return err
 		}
 		resultSet = append(resultSet, rs...)
